@@ -1,0 +1,183 @@
+//! Verification hooks. Compiled only with the cargo feature `verif`.
+//!
+//! Everything here is inert until armed by a harness:
+//!  - a process wide clock override consulted by `date_utils::now`
+//!  - a deterministic identifier source consulted by `security::new_uid`
+//!  - named fault points of the batch writer (process abort or injected statement error at the k-th hit)
+//!  - an optional callback receiving the writer connection at the start of every batch
+//!  - two gates (reader after execute, writer before batch) that block until the harness opens them
+use std::collections::HashMap;
+use std::sync::atomic::{AtomicI64, AtomicU64, Ordering};
+use std::sync::{Condvar, Mutex};
+
+const NO_CLOCK: i64 = i64::MIN;
+static CLOCK: AtomicI64 = AtomicI64::new(NO_CLOCK);
+
+/// set the value returned by `date_utils::now()`; `None` restores the wall clock
+pub fn set_now(ms: Option<i64>) {
+    CLOCK.store(ms.unwrap_or(NO_CLOCK), Ordering::SeqCst);
+}
+
+pub fn clock_override() -> Option<i64> {
+    let v = CLOCK.load(Ordering::SeqCst);
+    if v == NO_CLOCK {
+        None
+    } else {
+        Some(v)
+    }
+}
+
+static UID_NAMESPACE: AtomicU64 = AtomicU64::new(0);
+static UID_COUNTER: AtomicU64 = AtomicU64::new(0);
+
+/// namespace 0 disables the deterministic identifier source
+pub fn set_uid_namespace(ns: u64) {
+    UID_NAMESPACE.store(ns, Ordering::SeqCst);
+    UID_COUNTER.store(0, Ordering::SeqCst);
+}
+
+pub fn next_uid_tail() -> Option<[u8; 32]> {
+    let ns = UID_NAMESPACE.load(Ordering::SeqCst);
+    if ns == 0 {
+        return None;
+    }
+    let c = UID_COUNTER.fetch_add(1, Ordering::SeqCst);
+    let mut hasher = blake3::Hasher::new();
+    hasher.update(&ns.to_le_bytes());
+    hasher.update(&c.to_le_bytes());
+    Some(*hasher.finalize().as_bytes())
+}
+
+#[derive(Clone, Copy, Debug, PartialEq, Eq)]
+pub enum FaultMode {
+    /// `std::process::abort()`
+    Abort,
+    /// the fault point returns an injected `rusqlite::Error`
+    Error,
+}
+
+#[derive(Default)]
+struct FaultState {
+    armed: Option<(String, u64, FaultMode)>,
+    hits: HashMap<String, u64>,
+    fired: u64,
+}
+
+lazy_static::lazy_static! {
+    static ref FAULTS: Mutex<FaultState> = Mutex::new(FaultState::default());
+    static ref WRITER_CONN_HOOK: Mutex<Option<Box<dyn Fn(&rusqlite::Connection) + Send>>> = Mutex::new(None);
+    static ref GATES: (Mutex<HashMap<String, GateState>>, Condvar) = (Mutex::new(HashMap::new()), Condvar::new());
+}
+
+/// arm one fault: the `k`-th hit (1 based) of `point` fails with `mode`. Hit counters are reset.
+pub fn arm_fault(point: &str, k: u64, mode: FaultMode) {
+    let mut f = FAULTS.lock().unwrap();
+    f.armed = Some((point.to_string(), k, mode));
+    f.hits.clear();
+    f.fired = 0;
+}
+
+pub fn disarm_faults() {
+    let mut f = FAULTS.lock().unwrap();
+    f.armed = None;
+}
+
+pub fn reset_fault_hits() {
+    let mut f = FAULTS.lock().unwrap();
+    f.hits.clear();
+    f.fired = 0;
+}
+
+pub fn fault_hits() -> HashMap<String, u64> {
+    FAULTS.lock().unwrap().hits.clone()
+}
+
+pub fn faults_fired() -> u64 {
+    FAULTS.lock().unwrap().fired
+}
+
+/// a named fault point. Counts the hit, and fails when it is the armed one.
+pub fn fault(point: &str) -> std::result::Result<(), rusqlite::Error> {
+    let mut f = FAULTS.lock().unwrap();
+    let n = {
+        let e = f.hits.entry(point.to_string()).or_insert(0);
+        *e += 1;
+        *e
+    };
+    let fire = match &f.armed {
+        Some((p, k, mode)) if p == point && *k == n => Some(*mode),
+        _ => None,
+    };
+    if let Some(mode) = fire {
+        f.fired += 1;
+        match mode {
+            FaultMode::Abort => {
+                drop(f);
+                std::process::abort();
+            }
+            FaultMode::Error => {
+                return Err(rusqlite::Error::SqliteFailure(
+                    rusqlite::ffi::Error::new(rusqlite::ffi::SQLITE_FULL),
+                    Some(format!("verif injected fault at {} hit {}", point, n)),
+                ));
+            }
+        }
+    }
+    Ok(())
+}
+
+/// the callback is invoked with the writer connection at the start of every batch
+pub fn set_writer_conn_hook(hook: Option<Box<dyn Fn(&rusqlite::Connection) + Send>>) {
+    *WRITER_CONN_HOOK.lock().unwrap() = hook;
+}
+
+pub fn writer_conn(conn: &rusqlite::Connection) {
+    if let Some(h) = WRITER_CONN_HOOK.lock().unwrap().as_ref() {
+        h(conn);
+    }
+}
+
+#[derive(Default, Clone, Copy)]
+struct GateState {
+    closed: bool,
+    waiting: u64,
+    passed: u64,
+}
+
+/// close a gate: every thread reaching `gate(name)` blocks until `open_gate`/`release_gate`
+pub fn close_gate(name: &str) {
+    let mut g = GATES.0.lock().unwrap();
+    let e = g.entry(name.to_string()).or_default();
+    e.closed = true;
+}
+
+/// open a gate for good
+pub fn open_gate(name: &str) {
+    let mut g = GATES.0.lock().unwrap();
+    let e = g.entry(name.to_string()).or_default();
+    e.closed = false;
+    GATES.1.notify_all();
+}
+
+/// number of threads currently blocked at the gate and number that went through it
+pub fn gate_status(name: &str) -> (u64, u64) {
+    let g = GATES.0.lock().unwrap();
+    match g.get(name) {
+        Some(e) => (e.waiting, e.passed),
+        None => (0, 0),
+    }
+}
+
+pub fn gate(name: &str) {
+    let mut g = GATES.0.lock().unwrap();
+    if !g.contains_key(name) {
+        return;
+    }
+    g.get_mut(name).unwrap().waiting += 1;
+    while g.get(name).map(|e| e.closed).unwrap_or(false) {
+        g = GATES.1.wait(g).unwrap();
+    }
+    let e = g.get_mut(name).unwrap();
+    e.waiting -= 1;
+    e.passed += 1;
+}
